@@ -191,6 +191,15 @@ def run_case(case):
             tot_w = psutil.net_io_counters(nowrap=True)
             dtot_w = psutil.disk_io_counters(nowrap=True)
             du = psutil.disk_usage(mnt)
+            # a device listed in diskstats appears in /sys/block a moment
+            # later (hot-plug): from then on it counts as a whole disk
+            late = None
+            if not sysfs_mode:
+                parts = [d for d in disks if not is_whole(d)]
+                if parts:
+                    d_ = parts[0]
+                    k.mkdir("/sys/block/" + d_["name"].replace("/", "!"))
+                    late = (d_, psutil.disk_io_counters(perdisk=False, nowrap=False))
             # an interface goes away and comes back with smaller counters
             # (re-created veth, replugged adapter): the default call
             # (nowrap=True) must again report exactly the kernel's counters
@@ -258,6 +267,14 @@ def run_case(case):
                             f"{[d['name'] for d in whole_listed]}")
     if perdisk_w != perdisk or dtot_w != dtot:
         raise Violation("disk-nowrap-fresh", "nowrap=True on a fresh cache differs")
+    if late is not None:
+        d_, got_tot = late
+        now_whole = whole_listed + [d_]
+        esum = tuple(sum(c) for c in zip(*[expected_disk(x, sysfs_mode) for x in now_whole]))
+        if got_tot is None or tuple(got_tot) != esum:
+            raise Violation("disk-total", f"{d_['name']} appeared in /sys/block after the first call: total "
+                                          f"{got_tot!r} expected {esum} over {[x['name'] for x in now_whole]}")
+        labels.add("disk-appears-in-sysfs-later")
 
     # --- disk_usage
     total = blocks * frsize
